@@ -3,7 +3,8 @@
   abstract file system (path → bytes). Function by function:
 
   * `parseMode`      = what glibc's `fopen` makes of the mode string (first character r/w/a, then at most six more
-                       characters of which `+` and `x` matter; the string ends at the first NUL as `c_str()` does).
+                       characters of which `+` and `x` matter; the string ends at the first NUL as `c_str()` does);
+                       a mode with the glibc flag `m` (mmap stream) or a comma is `.unmodelled` (`hasComma`).
   * `Handle.open`    = `file::Handle::open` (closes first; `_r`/`_w` are computed by BLOC with `find` over the WHOLE
                        string, so "rw" gives `_w` although the stream is read-only: `write` then returns 0).
   * `fwriteBytes`    = `fwrite` as a walk over the file (keep what is in front of the position, zero-fill a gap left
@@ -284,7 +285,13 @@ inductive Res
   | undefinedSeq
   deriving Repr, DecidableEq
 
-def hasComma (m : Bytes) : Bool := (cstr m).contains chComma
+def chM : UInt8 := 109
+
+/-- mode strings outside the model: a comma (`,ccs=`: wide-character conversion), or the glibc extension flag `m` among the
+    characters `fopen` looks at (mmap-backed stream: after a failed seek, `fseek` + `fflush` re-deliver the file from offset
+    0 — glibc 2.36, observed through the real module; the plain stdio stream the model describes does not). The name is
+    historical. -/
+def hasComma (m : Bytes) : Bool := (cstr m).contains chComma || (((cstr m).drop 1).take 6).contains chM
 
 def seekH (w : World) (f : OFile) (wh : Spec.File.Whence) (off : Int64) : World × Res :=
   let c := (w.fs.get f.path).getD []
